@@ -36,8 +36,9 @@ impl<'a> MtHelpers<'a> {
         });
         let error_type: Type = match associated_error {
             Some(error) => parse_quote!(#error),
-            // This should never happen as the `interface` macro requires the trait to have an associated `Error` type
-            None => unreachable!(),
+            // The `interface` macro requires the trait to have an associated `Error` type and
+            // already reported the missing one; keep generating so that this diagnostic is shown.
+            None => parse_quote!(Error),
         };
 
         Self {
